@@ -6,14 +6,6 @@ import Gotree.Model.C20Table
 
 namespace Gotree.C20
 
-theorem tableOK_draws (ss : List Site) (os : List Opt) (h : tableOK ss os = true) :
-    drawsOf "totaltrees" (siteEvs ss "sample.noreplace") 0 = [("Intn", .counter 1)] ∧
-    drawsOf "totaltrees" (siteEvs ss "sample.replace") 0 = [("Intn", .counter 1)] ∧
-    drawsOf "i" (siteEvs ss "randomTips") 0 = [("Intn", .counter 1)] ∧
-    drawsOf "i" (siteEvs ss "RotateNeighbors") 0 = [("Intn", .counter 1)] := by
-  simp only [tableOK, Bool.and_eq_true, beq_iff_eq] at h
-  refine ⟨?_, ?_, ?_, ?_⟩ <;> simp only [h]
-
 theorem scriptBound_counter (c : Nat) : scriptBound [("Intn", .counter c)] = fun i => i + c := by
   funext i; simp [scriptBound]
 
